@@ -150,6 +150,21 @@ func genOutCase(t *rapid.T, forceSigned bool) OutCase {
 			sp.Enc = h.KeyCfg{Mode: "tls", Field: h.CertRef{Key: "E1", Window: "wide"}}
 		}
 	}
+	// the IdP's binding identifiers (what its metadata says about its endpoints): every builder produces the binding
+	// it is named after, whatever these say
+	bindings := []string{"", "", saml2.BindingHttpPost, saml2.BindingHttpRedirect, "urn:oasis:names:tc:SAML:2.0:bindings:HTTP-Artifact"}
+	sp.IdPSSOBinding = rapid.SampledFrom(bindings).Draw(t, "idpSSOBinding")
+	sp.IdPSLOBinding = rapid.SampledFrom(bindings).Draw(t, "idpSLOBinding")
+	// endpoints that are URLs with a feature a URL library may "normalise": default port, upper-case host, userinfo,
+	// IPv6 literal, empty query, trailing dot, escapes in the path — the message carries the configured STRING
+	if rapid.IntRange(0, 3).Draw(t, "urlShapedEndpoints") == 0 {
+		shapes := []string{"https://idp.example.com:443/saml/sso", "http://idp.example.com:80/sso", "HTTPS://IDP.Example.COM/sso", "https://user:pw@idp.example.com/sso", "https://[2001:db8::1]:8443/sso",
+			"https://idp.example.com/sso?", "https://idp.example.com./sso", "https://idp.example.com/a%2Fb/%7Esso", "https://idp.example.com/sso#frag", "https://idp.example.com", "https://idp.example.com/sso/../slo", "//idp.example.com/sso", "https://xn--idp-example.com/ssö"}
+		sp.IdPSSO = rapid.SampledFrom(shapes).Draw(t, "idpSSOShape")
+		sp.IdPSLO = rapid.SampledFrom(shapes).Draw(t, "idpSLOShape")
+		sp.ACS = rapid.SampledFrom(shapes).Draw(t, "acsShape")
+		sp.SLO = rapid.SampledFrom(shapes).Draw(t, "sloShape")
+	}
 	// options that govern INBOUND processing only: what the service provider sends, and the certificate it reports
 	// and signs with, are the same whatever they are set to
 	sp.ValidateEncCert = rapid.Bool().Draw(t, "validateEncCert")
